@@ -10,6 +10,7 @@ import (
 	"go.brendoncarroll.net/p2p"
 	"go.brendoncarroll.net/p2p/f/x509"
 	"go.brendoncarroll.net/p2p/f/x509/oids"
+	"go.brendoncarroll.net/p2p/s/memswarm"
 	"go.brendoncarroll.net/p2p/s/p2pkeswarm"
 	"go.brendoncarroll.net/p2p/s/quicswarm"
 	"pgregory.net/rapid"
@@ -197,7 +198,7 @@ func TestC17WireIndependence(t *testing.T) {
 
 func TestC17PeerIDText(t *testing.T) {
 	const sub = "C17.peerid_text"
-	ev.Rule(sub, "rapid: 32-byte ids (random, all-zero, all-ones, adjacent pairs) and candidate texts (valid text with one character replaced by a byte outside the alphabet, by a character carrying non-zero padding bits, standard-base64 alphabets, wrong lengths 42/44, arbitrary bytes). Oracles: UnmarshalText(MarshalText(id)) == id; id1<id2 iff text1<text2 bytewise; invalid text is rejected with an error; any accepted text re-marshals to itself. non-trivial = invalid candidate text or an ordered pair differing late; distinct by text")
+	ev.Rule(sub, "rapid: 32-byte ids (random, all-zero, all-ones, adjacent pairs) and candidate texts (valid text with one character replaced by a byte outside the alphabet, by a character carrying non-zero padding bits, standard-base64 alphabets, wrong lengths 42/44, arbitrary bytes). Oracles: UnmarshalText(MarshalText(id)) == id; id1<id2 iff text1<text2 bytewise; invalid text is rejected with an error; any accepted text re-marshals to itself; quicswarm.ParseAddr and p2pkeswarm.ParseAddr of '<text>@<inner>' accept exactly the valid texts and report the same identity. non-trivial = invalid candidate text or an ordered pair differing late; distinct by text")
 	alphabet := p2p.Base64Alphabet
 	inAlpha := func(c byte) bool { return bytes.IndexByte([]byte(alphabet), c) >= 0 }
 	rapid.Check(t, func(t *rapid.T) {
@@ -293,6 +294,24 @@ func TestC17PeerIDText(t *testing.T) {
 			re, _ := got.MarshalText()
 			if !bytes.Equal(re, cand) {
 				t.Fatalf("accepted text %q re-marshals to %q", cand, re)
+			}
+		}
+		// the same verdict wherever an identity is embedded in the text of an address
+		if bytes.IndexByte(cand, '@') < 0 {
+			full := append(append([]byte{}, cand...), []byte("@7")...)
+			qa, qerr := quicswarm.ParseAddr[memswarm.Addr](memswarm.ParseAddr, full)
+			pa, perr := p2pkeswarm.ParseAddr[memswarm.Addr](memswarm.ParseAddr, full)
+			for _, x := range []struct {
+				name string
+				id   p2p.PeerID
+				err  error
+			}{{"quicswarm", qa.ID, qerr}, {"p2pkeswarm", pa.ID, perr}} {
+				if valid && (x.err != nil || x.id != got) {
+					t.Fatalf("%s.ParseAddr(%q): identity %s, error %v; the identity text alone parses to %s", x.name, full, hx(x.id[:]), x.err, hx(got[:]))
+				}
+				if !valid && x.err == nil {
+					t.Fatalf("%s.ParseAddr accepted %q although its identity part is not a valid identity text (%s); it reports identity %s", x.name, full, kind, hx(x.id[:]))
+				}
 			}
 		}
 	})
